@@ -339,3 +339,10 @@ def build(spec, env):
             return out
         return Case(cmds, check, 2, ('cong', an, dn, mode, d == 0))
     raise ValueError(kind)
+
+HOOKS = {30: 'sb_div_qr n1==d1 special case', 31: 'sb_div_qr add-back', 32: 'udiv_qr_3by2 second adjustment', 33: 'tdiv_qr quotient_too_large fix-up'}
+def post(tier, agg, cov):
+    hits = agg.get('hits', {})
+    cov['rare_branches_observed'] = {HOOKS[k]: hits.get(k, 0) for k in HOOKS}
+    missing = [HOOKS[k] for k in HOOKS if not hits.get(k)]
+    if missing: return {'inconclusive': 'quotient-correction branches never taken (hook counters zero): %s' % missing}
